@@ -4,6 +4,7 @@ CONSTANTS
     MaxNum = 4
     MaxCid = 98
     GenMaxNum = 3
+    RangeHist = "full"
     MaxHist = 3
     FindPrefersDirectChild = FALSE
     ExcuseDecoy = TRUE
